@@ -66,6 +66,10 @@ def run(chk: Check, proj: Project) -> None:
     s5_merge_repeated(chk, proj, w)
     s6_pipeline(chk, proj, w)
     s10_parts_render_escaped(chk, proj)
+    from . import C07 as _C07
+
+    chk.borrow("S11", "whether slot content given from Python is escaped is decided by THIS render's `escape_slots_content`: the wrapper that escapes a slot function's output is built per render - a process-wide memo keyed by the function object freezes the flag of the first render, so after one render with escaping off every later render of that function emits its raw output (shared with C07-S1-C)",
+               lambda sub: _C07.s1c_shared(sub, proj, w, _C07.reach_set(proj, w)), only=lambda o: "_normalize_slot_fills" in o.construct or "attributes:" in o.construct)
     from . import generic
 
     chk.rule("S7", "render routes forward every shared parameter (escape_slots_content among them), generic form (shared with C01-S10)")
